@@ -1,5 +1,8 @@
 import Qryn.Ingest.Batcher
 import Qryn.Ingest.PromDecoder
+import Qryn.Ingest.ErrorHandler
+import Qryn.Ingest.PromiseModel
+import Qryn.Base.Bytes
 /-! Line protocol for C01/C02: one *scenario* per line (the batcher is stateful, the driver is not).
 
 `c01run <kind> <maxQueue> <svcNum> <op>;<op>;…` → `<event>;<event>;…#<state of each sub-service>`
@@ -10,6 +13,12 @@ import Qryn.Ingest.PromDecoder
   events: r:<id>:<ok|err>   i:<ok|err>:<col=v,v|col=…>   x (crash)
 `c01push <attempts> <hasReq> <hasSvc> <outcomes 0/1 …>` → `<ok|err> <attempts made>`
 `c01parse <attempts> <chunk>;<chunk>…` chunk = `E` or pushes `hasReq,hasSvc,outcomes|…` → `success|failure`
+`c01retrytext <hex,hex,…|none>` → hex of retry-go's `Error.Error()` for these per-attempt texts
+`c01classify <errval> ` errval = `u/<hex>` untyped, `m<code>/<hex>` *UnMarshalError, `q<code>/<hex>` *QrynError → `silent|status n|fault`
+`c01answer <attempts> <okStatus> <pre> <chunks>` pre = `-` or errval; chunks `-` or `;`-separated: `E:<errval>` or pushes
+          `hasReq,hasSvc,<att>.<att>…|…` with att = `o` (ok) `f<hex>` (failed with this text) `p<hex>` (panicked) → `silent|status n|fault`
+`c01promise <thread,thread,…> <sched>` thread = `d<res>.<err>` (a Done call) | `g` (a Get call); sched = `seq` (every goroutine runs to
+          completion, in order) or comma-separated goroutine indices, one per statement → `ok|fault` then per Get `r/e` or `blocked`
 `c02prom <limit> <byBuffer 0/1> <points> <len,len,…>` → calls `rows/types;…` for series of the given lengths -/
 namespace Driver.C01
 open Qryn.Ingest.Batcher Qryn.Ingest
@@ -104,6 +113,88 @@ def chunk? (s : String) : Option Chunk :=
 def showStatus : List Status → String
   | [.success] => "success" | [.failure] => "failure" | _ => "malformed"
 
+
+/-! ### ErrorHandler -/
+section eh
+open Qryn.Ingest.ErrorHandler
+
+def errval? (s : String) : Option ErrVal :=
+  match s.splitOn "/" with
+  | [k, hx] => do
+    let t ← Qryn.ofHex hx
+    if k = "u" then pure { as := [], text := t }
+    else if k.startsWith "m" then do
+      let c ← (k.drop 1).toNat?
+      pure { as := [("*customErrors.UnMarshalError", c), ("customErrors.IQrynError", c)], text := t }
+    else if k.startsWith "q" then do
+      let c ← (k.drop 1).toNat?
+      pure { as := [("customErrors.IQrynError", c)], text := t }
+    else none
+  | _ => none
+
+def attempt? (s : String) : Option Attempt :=
+  if s = "o" then some .ok
+  else if s.startsWith "f" then (Qryn.ofHex (s.drop 1).toString).map .fail
+  else if s.startsWith "p" then (Qryn.ofHex (s.drop 1).toString).map .panic
+  else none
+
+def pushT? (s : String) : Option PushT :=
+  match s.splitOn "," with
+  | [r, v, outs] => do
+    let r ← bool? r; let v ← bool? v
+    let outs ← if outs = "" then some [] else (outs.splitOn ".").mapM attempt?
+    pure ⟨r, v, fun k => outs.getD k (.fail [])⟩
+  | _ => none
+
+def chunkT? (s : String) : Option ChunkT :=
+  if s.startsWith "E:" then (errval? (s.drop 2).toString).map .error
+  else ((s.splitOn "|").mapM pushT?).map .response
+
+def showAnswer : Answer → String
+  | .silent => "silent" | .status c => s!"status {c}" | .fault => "fault"
+
+def handleEH : List String → Option String
+  | ["c01retrytext", ts] => do
+    let errs ← if ts = "none" then some [] else (ts.splitOn ",").mapM Qryn.ofHex
+    pure (Qryn.hexOut (retryText retryFmt errs))
+  | ["c01classify", ev] => do
+    let e ← errval? ev
+    pure (showAnswer (classify rules e))
+  | ["c01answer", attempts, okStatus, pre, chunks] => do
+    let a ← nat? attempts; let ok ← nat? okStatus
+    let pre ← if pre = "-" then some none else (errval? pre).map some
+    let cs ← if chunks = "-" then some [] else (chunks.splitOn ";").mapM chunkT?
+    pure (showAnswer (handlerT rules retryFmt a pre ok cs))
+  | _ => none
+end eh
+
+/-! ### promise.Promise -/
+section pm
+open Qryn.Ingest.PromiseModel
+
+def th? (s : String) : Option Th :=
+  if s = "g" then some (.get .wait 0 0)
+  else if s.startsWith "d" then
+    match (s.drop 1).toString.splitOn "." with
+    | [r, e] => do pure (.done (← nat? r) (← nat? e) .cas)
+    | _ => none
+  else none
+
+def showTh : Th → Option String
+  | .get .ret r e => some s!"{r}/{e}"
+  | .get _ _ _ => some "blocked"
+  | .done _ _ _ => none
+
+def handlePM : List String → Option String
+  | ["c01promise", ths, sched] => do
+    let ths ← (ths.splitOn ",").mapM th?
+    let sched ← if sched = "seq" then some ((List.range ths.length).flatMap (fun i => List.replicate 4 i))
+                else (sched.splitOn ",").mapM nat?
+    let s := Qryn.Ingest.PromiseModel.run (init ths) sched
+    pure (" ".intercalate ((if s.c.fault then "fault" else "ok") :: s.ths.filterMap showTh))
+  | _ => none
+end pm
+
 def handle : List String → Option String
   | ["c01run", k, mq, n, ops] => do
     let k ← kind? k; let mq ← nat? mq; let n ← nat? n
@@ -131,5 +222,5 @@ def handle : List String → Option String
     let series := lens.map (fun n => List.range n)
     let calls := PromDecoder.decode limit bb series points
     pure s!"{(calls.map (fun c => c.rows.length)).sum} {(calls.map (·.types)).sum} {calls.length}"
-  | _ => none
+  | ws => (handleEH ws).orElse (fun _ => handlePM ws)
 end Driver.C01
